@@ -3,6 +3,7 @@ package harness
 // C07 — growth is demand-gated, and healthy saturation always recovers the limit.
 
 import (
+	"fmt"
 	"math"
 	"testing"
 
@@ -22,6 +23,27 @@ type c07Case struct {
 	// configuration: min <= initial <= max, allowance <= max). Nothing is claimed about drops or growth from such a
 	// state, but the demand gate is unconditional: idle, drop-free samples must leave the estimate where it is.
 	BelowFloor []Sample `json:"below_floor,omitempty"`
+	// Ramp: after the prefix, a sustained and worsening overload - RampN saturated drop-free samples, each RampPM per
+	// mille slower than the one before (compressed history: three numbers stand for up to a thousand samples). With
+	// RampRun > 0 the healthy run of gradient2 then uses RampRun x the last RTT of the ramp as its constant RTT.
+	RampN     int   `json:"ramp_n,omitempty"`
+	RampPM    int   `json:"ramp_pm,omitempty"`
+	RampStart int64 `json:"ramp_start,omitempty"`
+	RampRun   int   `json:"ramp_run,omitempty"`
+}
+
+// ramp expands the ramp of a case into its samples.
+func (c c07Case) ramp() []Sample {
+	var out []Sample
+	rtt := float64(c.RampStart)
+	for i := 0; i < c.RampN; i++ {
+		if rtt > 1e17 {
+			rtt = 1e17
+		}
+		out = append(out, Sample{RTT: int64(rtt), Rel: "dbl"})
+		rtt *= 1 + float64(c.RampPM)/1000
+	}
+	return out
 }
 
 func genC07(t *rapid.T) c07Case {
@@ -66,6 +88,15 @@ func genC07(t *rapid.T) c07Case {
 		c.RunRTT = 0 // a coarse clock: the constant RTT of the healthy run is 0 (RTT >= 0 is the stated domain)
 	}
 	c.AIMDN = rapid.IntRange(1, 30).Draw(t, "aimdN")
+	if c.Cfg.Algo != "aimd" && rapid.IntRange(0, 3).Draw(t, "hasRamp") == 0 {
+		c.RampN = rapid.SampledFrom([]int{20, 60, 150, 400, 1000}).Draw(t, "rampN")
+		c.RampPM = rapid.SampledFrom([]int{5, 10, 30, 30, 100, 1000}).Draw(t, "rampPM")
+		if c.RampPM == 1000 && c.RampN > 60 {
+			c.RampN = 60
+		}
+		c.RampStart = rapid.SampledFrom([]int64{1, 1000, 1_000_000}).Draw(t, "rampStart")
+		c.RampRun = rapid.SampledFrom([]int{0, 1, 1, 2, 5}).Draw(t, "rampRun")
+	}
 	if (c.Cfg.Algo == "gradient" || c.Cfg.Algo == "gradient2") && c.Cfg.Ctor == "" && len(c.Cfg.Unset) == 0 && rapid.IntRange(0, 3).Draw(t, "belowFloor") == 0 {
 		q := c.Cfg.effectiveQueue()
 		lo := c.Cfg.Min
@@ -124,6 +155,12 @@ func runC07(_ *testing.T, c c07Case) kit.Outcome {
 	prefix := c.Prefix
 	for r := 1; r < c.PrefixTimes; r++ {
 		prefix = append(prefix, c.Prefix...)
+	}
+	if rs := c.ramp(); len(rs) > 0 {
+		prefix = append(prefix[:len(prefix):len(prefix)], rs...)
+		if c.RampRun > 0 {
+			c.RunRTT = rs[len(rs)-1].RTT * int64(c.RampRun)
+		}
 	}
 	for _, s := range prefix {
 		before := b.Outer.EstimatedLimit()
@@ -285,9 +322,12 @@ func runC07(_ *testing.T, c c07Case) kit.Outcome {
 		}
 		labelUse(&out, float64(steps)/bound, algo)
 	}
-	out.NonTrivial = sawDrop && sawZero && gap >= 3
+	out.NonTrivial = (sawDrop && sawZero || c.RampN >= 50) && gap >= 3
 	if c.RunRTT == 0 {
 		out.Labels = append(out.Labels, "run-rtt0")
+	}
+	if c.RampN > 0 {
+		out.Labels = append(out.Labels, fmt.Sprintf("ramp:%d", c.RampN))
 	}
 	if c.Cfg.VThr != "" {
 		out.Labels = append(out.Labels, "vegas-custom-policy")
@@ -399,7 +439,7 @@ func TestC07_growth(t *testing.T) {
 	kit.RequireMode(t, "std")
 	kit.Check(t, kit.Prop[c07Case]{
 		ID: "C07", Quick: 2500, Thor: 300_000,
-		Rule: "configuration x arbitrary prefix (drops, zero RTTs) x one app-limited sample x a run of saturated drop-free samples at the baseline; non-trivial = prefix has a drop and a zero RTT and the run started >=3 below the ceiling",
+		Rule: "configuration x arbitrary prefix (drops, zero RTTs) x one app-limited sample x a run of saturated drop-free samples at the baseline; optionally a ramp between prefix and run (20-1000 saturated samples, each 0.5-100 % slower than the one before; gradient2 then runs at 1-5x the last RTT); non-trivial = (prefix has a drop and a zero RTT, or a ramp of >=50 samples) and the run started >=3 below the ceiling",
 		Gen:  genC07, Run: runC07,
 	})
 }
